@@ -21,6 +21,7 @@ use serde_json::{json, Value};
 use std::collections::BTreeMap;
 use std::sync::Arc;
 
+#[allow(dead_code)]
 #[path = "../sched.rs"]
 pub mod sched;
 use sched::{Strategy, Timing};
@@ -141,7 +142,11 @@ impl Prop for C05 {
     let nthreads = 2 + rng.below(3);
     let mut ver = 0usize;
     let maxlen = tier.pick(5, 8);
-    let mut threads: Vec<Value> = (0..nthreads).map(|t| json!(gen_calls(rng, t, 2 + rng.below(maxlen - 1), &mut ver))).collect();
+    let mut threads: Vec<Value> = Vec::new();
+    for t in 0..nthreads {
+      let len = 2 + rng.below(maxlen - 1);
+      threads.push(json!(gen_calls(rng, t, len, &mut ver)));
+    }
     let compactor = rng.chance(1, 2);
     if compactor {
       let n = 1 + rng.below(2);
@@ -203,7 +208,7 @@ impl Prop for C05 {
       })
       .collect();
     let strategy = Strategy::from_json(&case["sched"], n);
-    let run = sched::run(dir.path(), strategy, Timing::default(), Box::new(|_k, _n| true), bodies);
+    let run = sched::run(dir.path(), strategy, Timing::default(), Box::new(|_t, _k, _n| true), None, bodies);
     s.count(&format!("sched_{}", case["sched"]["kind"].as_str().unwrap_or("rr")));
     s.count(if mem { "backend_memory" } else { "backend_filesystem" });
     s.count(&format!("threads_{n}"));
